@@ -15,7 +15,9 @@ def main():
     env.pop("CSVPATH_VERIF", None)
     cmd = ["/venv/bin/python", "-m", "pytest", "-q", "-p", "no:cacheprovider", "--timeout=900",
            "--continue-on-collection-errors", f"--junitxml={junit}"] + sys.argv[1:]
-    p = subprocess.run(cmd, cwd="/repo", env=env, stdout=subprocess.PIPE, stderr=subprocess.STDOUT, text=True)
+    repo = os.environ.get("BASELINE_REPO", "/repo")
+    env["PYTHONPATH"] = repo
+    p = subprocess.run(cmd, cwd=repo, env=env, stdout=subprocess.PIPE, stderr=subprocess.STDOUT, text=True)
     tail = p.stdout.strip().splitlines()[-3:]
     passed, seen = set(), set()
     for tc in ET.parse(junit).getroot().iter("testcase"):
@@ -24,7 +26,7 @@ def main():
         if not any(ch.tag in ("failure", "error", "skipped") for ch in tc):
             passed.add(name)
     os.unlink(junit)
-    subprocess.run(["git", "-C", "/repo", "checkout", "--", "tests"], capture_output=True)  # tests rewrite tracked fixtures
+    subprocess.run(["git", "-C", repo, "checkout", "--", "tests"], capture_output=True)  # tests rewrite tracked fixtures
     selected = stable & seen if sys.argv[1:] else stable
     missing = sorted(selected - passed)
     newpass = sorted(passed - stable)
